@@ -597,6 +597,31 @@ func c08EngineLayer(x *c08Ctx, c *Ctx) int64 {
 			}
 		}
 	}
+	// size: 9, 17 and 33 distinct rules with their twins (and one twin missing)
+	for _, n := range []int{9, 17, 33} {
+		var xs, ts []string
+		for i := 0; i < n; i++ {
+			s := srule{false, c08P1, []string{fmt.Sprintf("domain=src.org|d%02d.org", i), "script"}}
+			xs = append(xs, s.text())
+			ts = append([]string{s.twin(i % 3).text()}, ts...) // twins in reverse order, badfilter at varying positions
+		}
+		base := []string{srule{false, c08P1, nil}.text()}
+		want := webVerdict(base)
+		mu.Lock()
+		evals += 2
+		mu.Unlock()
+		if got := webVerdict(append(append(append([]string{}, xs...), base...), ts...)); got != want {
+			c.Run.Violate(ev.Violation{Pred: "engine-twins-leave-verdict-unchanged", Sig: map[string]any{"engine": "web", "pairs": n},
+				What: fmt.Sprintf("web: %d rules with their twins around base %v give %s, the base alone gives %s", n, base, got, want), Replay: map[string]any{"seq": append(append(append([]string{}, xs...), base...), ts...), "base_verdict": ""}})
+		}
+		j := n / 2
+		missing := append(append([]string{}, ts[:n-1-j]...), ts[n-j:]...) // the twin of xs[j] left out
+		wantOne := webVerdict(append(append([]string{}, base...), xs[j]))
+		if got := webVerdict(append(append(append([]string{}, xs...), base...), missing...)); got != wantOne {
+			c.Run.Violate(ev.Violation{Pred: "engine-badfilter-affects-only-twins", Sig: map[string]any{"engine": "web", "pairs": n, "missing": j},
+				What: fmt.Sprintf("web: %d rules, all but %q with their twins, around base %v give %s; base plus that rule gives %s", n, xs[j], base, got, wantOne), Replay: map[string]any{"seq": append(append(append([]string{}, xs...), base...), missing...), "base_verdict": ""}})
+		}
+	}
 	layer("web", web, webVerdict)
 	layer("dns", dns, dnsVerdict)
 	copies("web", web, webVerdict)
